@@ -1,5 +1,6 @@
 (* C01: signed messages are accepted only when the signature is authentic. *)
 From Bifrost Require Import Lib.Base Lib.Sym Lib.SigSym gen.Sig gen.SigHash Sig.Model Sig.Proofs.
+From Bifrost Require Import Lib.Proto gen.Descs Sig.Wire Sig.WireProofs.
 
 (* the sign body bytes.Join([ctx, itoa(ht), digest], sep) determines context,
    hash type and data (separator, hash types and digest lengths regenerated
@@ -97,16 +98,33 @@ Theorem c01_signature_transplanted : forall ctx k ht data m ctx2 k2 ht2 data2 m2
 Proof. exact transplant_rejected. Qed.
 Print Assumptions c01_signature_transplanted.
 
-(* totality: ExtractAndVerify never panics; neither does decode-then-verify as
-   long as the generated wire decoder does not (that part is property C40 and is
-   sampled here on random and mutated wire bytes) *)
+(* totality: ExtractAndVerify never panics ... *)
 Theorem c01_total : forall ctx m, extract_and_verify ctx m <> Panic.
 Proof. exact extract_and_verify_total. Qed.
 Print Assumptions c01_total.
 
-Theorem c01_wire_total : forall decoded ctx, decoded <> Panic -> decode_and_verify decoded ctx <> Panic.
-Proof. exact decode_and_verify_total. Qed.
+(* ... and neither does UnmarshalSignedMsg followed by ExtractAndVerify on ANY
+   wire bytes (every Go slice is shorter than 2^63), whatever the symbolic
+   reading R of the decoded field values: unconditional, from the totality of
+   the generic wire decoder (Lib/ProtoProofs.v, property C40) at the descriptor
+   of peer.SignedMsg regenerated from peer/peer.proto *)
+Theorem c01_wire_total : forall R ctx wire,
+  len wire < two63 -> decode_and_verify_wire R ctx wire <> Panic.
+Proof. exact decode_and_verify_wire_total. Qed.
 Print Assumptions c01_wire_total.
+
+(* acceptance of wire bytes is acceptance of the decoded message, so c01_sound
+   and the tamper theorems apply to what was decoded *)
+Theorem c01_wire_sound : forall R ctx wire k,
+  decode_and_verify_wire R ctx wire = Ok k ->
+  exists w, unmarshal_signed_msg wire = Ok w /\ extract_and_verify ctx (smsg_of R w) = Ok k.
+Proof. exact decode_and_verify_wire_sound. Qed.
+Print Assumptions c01_wire_sound.
+
+(* the descriptor has the fields the conversion reads, with the expected kinds *)
+Theorem c01_wire_schema : schema_ok = true.
+Proof. exact schema_ok_true. Qed.
+Print Assumptions c01_wire_schema.
 
 (* non-vacuity: an honest message exists for every supported hash type, is
    accepted, and is rejected under another context *)
